@@ -1,7 +1,7 @@
 (* Base/Num.v — exact rationals, the encoding of IEEE doubles observed from the implementation,
    and the tolerance comparison used by the correspondence check.  Definitions only. *)
 From Coq Require Import QArith Qabs ZArith List Bool.
-From Coq Require Import Uint63.
+From Coq Require Export Uint63.
 Import ListNotations.
 Open Scope Q_scope.
 
@@ -10,6 +10,7 @@ Open Scope Q_scope.
 Inductive fl : Type :=
 | F (neg : bool) (m : int) (e : Z)
 | FNonFinite.
+Arguments F neg m%uint63 e%Z.
 
 Definition pow2 (e : Z) : positive := Z.to_pos (Z.pow 2 e).
 
